@@ -82,6 +82,17 @@ fn main() {
                     serde_json::json!({"panic": last}),
                 );
                 report.finish(serde_json::json!({"evaluations": 1, "distinct_nontrivial": 1, "rule": "the check aborted on a panic of the code under test before completing", "samples": [last], "aborted": true}))
+            } else if msg.contains("on an `Err` value") || (msg.contains(": ") && last.contains("@ src/") && (msg.contains("Error") || msg.contains("Err(") || msg.contains("Limit") || msg.contains("Invalid"))) {
+                // the harness unwrapped a Result that the code under test returned while the check
+                // was building a *valid* input (signing, shredding, serializing a legitimate value):
+                // the code under test refused something it has to accept
+                let report = common::Report::new(id, tier, "other");
+                report.violation(
+                    format!("{id}:valid-input-refused-by-code-under-test:{}", engine::panic_class(&msg)),
+                    format!("while the check built a valid input the code under test returned an error: {last}"),
+                    serde_json::json!({"panic": last}),
+                );
+                report.finish(serde_json::json!({"evaluations": 1, "distinct_nontrivial": 1, "rule": "the check aborted because the code under test refused a valid fixture", "samples": [last], "aborted": true}))
             } else {
                 println!("MACHINERY-FAILURE: harness panicked: {last}");
                 2
